@@ -340,8 +340,23 @@ pub struct Interp<'a> {
     halted: bool,
 }
 
+/// A TTL of i64::MAX ns stands for the largest TTL whose deadline the expiry index of the unchanged
+/// tree still computes: i64::MAX *seconds* (its remaining time never runs out within a case).
+pub const HUGE_TTL: i64 = i64::MAX;
+
 fn dur(ns: i64) -> Duration {
+    if ns == HUGE_TTL {
+        return Duration::from_secs(i64::MAX as u64);
+    }
     Duration::from_nanos(ns.max(0) as u64)
+}
+
+/// what get_ttl / ValueRef::ttl must report for an entry written with `ttl` at `created`
+fn remaining(ttl: i64, created: i64, now: i64) -> Duration {
+    if ttl == HUGE_TTL {
+        return Duration::from_secs(i64::MAX as u64) - Duration::from_nanos((now - created).max(0) as u64);
+    }
+    dur(ttl - (now - created))
 }
 
 fn dur_ns(d: Duration) -> i64 {
@@ -521,7 +536,7 @@ impl<'a> Interp<'a> {
                 NObs::Ins { k, v, ttl, r } => {
                     self.tr(|| format!("    (interposed) insert(k{}, {}, ttl {}ns) = {:?}", k, v, ttl, r));
                     if ttl > 0 {
-                        self.all_deadlines.push(self.m.now + ttl);
+                        self.all_deadlines.push(self.m.now.saturating_add(ttl));
                     }
                     match r {
                         Ok(true) => self.accept_ttl(k, v, false, ttl),
@@ -1392,7 +1407,7 @@ impl<'a> Interp<'a> {
                 .m
                 .store
                 .iter()
-                .filter_map(|(k, e)| e.deadline().filter(|d| now >= d + NS).map(|d| (*k, e.val, d)))
+                .filter_map(|(k, e)| e.deadline().filter(|d| now >= d.saturating_add(NS)).map(|d| (*k, e.val, d)))
                 .collect();
             for (k, v, d) in overdue {
                 self.fail(
@@ -1579,13 +1594,13 @@ impl<'a> Interp<'a> {
                 let e = self.m.store.get_mut(&index).unwrap();
                 let had_ttl = e.ttl != 0;
                 let shared = {
-                    let b = (e.created + e.ttl) / NS;
+                    let b = e.created.saturating_add(e.ttl) / NS;
                     had_ttl
                         && self
                             .m
                             .store
                             .iter()
-                            .filter(|(i, o)| **i != index && o.ttl != 0 && (o.created + o.ttl) / NS == b)
+                            .filter(|(i, o)| **i != index && o.ttl != 0 && o.created.saturating_add(o.ttl) / NS == b)
                             .count()
                             > 0
                 };
@@ -1650,10 +1665,10 @@ impl<'a> Interp<'a> {
             return;
         }
         if ttl != 0 && ret {
-            self.all_deadlines.push(now + ttl);
+            self.all_deadlines.push(now.saturating_add(ttl));
         }
         if ttl != 0 {
-            let d = now + ttl;
+            let d = now.saturating_add(ttl);
             if d % NS <= 1_000_000 || NS - d % NS <= 1_000_000 {
                 self.feats.boundary_deadlines += 1;
             }
@@ -1792,7 +1807,7 @@ impl<'a> Interp<'a> {
                     return;
                 }
                 if let Some(t) = ttl {
-                    let want = if e.ttl == 0 { Duration::MAX } else { dur(e.ttl - (now - e.created)) };
+                    let want = if e.ttl == 0 { Duration::MAX } else { remaining(e.ttl, e.created, now) };
                     if t != want {
                         self.fail(
                             "ttl_value",
@@ -1889,7 +1904,7 @@ impl<'a> Interp<'a> {
         clock::set_thread(Some(t1));
         if let (Some((_, _, after)), Some(e)) = (got, me.as_ref()) {
             // while the reference is held the remaining time keeps counting down and stops at zero
-            let want = if e.ttl == 0 { Duration::MAX } else { dur((e.ttl - (t1 - e.created)).max(0)) };
+            let want = if e.ttl == 0 { Duration::MAX } else if e.ttl == HUGE_TTL { remaining(e.ttl, e.created, t1) } else { dur((e.ttl - (t1 - e.created)).max(0)) };
             if after != want {
                 self.fail(
                     "ttl_value",
@@ -1909,7 +1924,7 @@ impl<'a> Interp<'a> {
             return;
         }
         let now = self.m.now;
-        let want = me.as_ref().map(|e| if e.ttl == 0 { Duration::MAX } else { dur(e.ttl - (now - e.created)) });
+        let want = me.as_ref().map(|e| if e.ttl == 0 { Duration::MAX } else { remaining(e.ttl, e.created, now) });
         if got != want {
             let props: &'static [&'static str] = &["C03", "C09", "C18", "C19"];
             self.fail("get_ttl_value", props, format!("get_ttl of key {} = {:?}, expected {:?}", k, got, want));
@@ -2167,7 +2182,7 @@ impl<'a> Interp<'a> {
             if let Ev::Evict(v, index, ..) = e {
                 if let Some(i) = self.vals.get(v).cloned() {
                     if !i.in_place && i.ttl >= 0 && (i.ttl == 0 || now - i.written_at < i.ttl) {
-                        let why = if i.ttl == 0 { "was written without TTL".to_string() } else { format!("expires only at {}", i.written_at + i.ttl - T0) };
+                        let why = if i.ttl == 0 { "was written without TTL".to_string() } else { format!("expires only at {}", i.written_at.saturating_add(i.ttl) - T0) };
                         self.fail(
                             "tick_evicts_unexpired",
                             &["C05", "C04", "C03", "C11"],
@@ -2224,7 +2239,8 @@ impl<'a> Interp<'a> {
             Adv::Deadline(k, delta) => {
                 let (index, _) = self.key(*k);
                 match self.m.store.get(&index).and_then(|e| e.deadline()) {
-                    Some(d) if d + delta > now => d + delta,
+                    // (the deadline of a huge TTL is out of reach)
+                    Some(d) if d < i64::MAX / 2 && d + delta > now => d + delta,
                     _ => now + 1,
                 }
             }
@@ -2233,7 +2249,7 @@ impl<'a> Interp<'a> {
                     now + 1
                 } else {
                     let d = self.all_deadlines[(*i as usize) % self.all_deadlines.len()];
-                    let due = (d / NS + 1) * NS + delta;
+                    let due = if d < i64::MAX / 2 { (d / NS + 1) * NS + delta } else { 0 };
                     if due > now {
                         due
                     } else {
